@@ -583,6 +583,11 @@ class Verdict:
     def _fold_verdict(self, eng, st, op, x, y, truth, b):
         """`map.iter().fold(0, |n, (m, &owned)| n + m.strong().saturating_sub(owned)) > 0`: the number of strong references
         the group does not hold itself; the group is orphaned iff it is zero."""
+        # one field of a struct / tuple folded over the members (`fold(Census::default(), |c, m| Census { members: c.members + 1,
+        # outside: c.outside + usize::from(m.strong() > owned) })`, then `census.outside == 0`)
+        fname = None
+        if x[0] == "field" and x[1][0] == "call" and x[1][2] == "core::iter::Iterator::fold" and len(x[1][3]) == 3:
+            fname, x = x[2], x[1]
         is_fold = x[0] == "call" and x[2] == "core::iter::Iterator::fold" and len(x[3]) == 3
         is_sum = x[0] == "call" and x[2] == "core::iter::Iterator::sum" and len(x[3]) == 1
         if x[0] == "field" and x[2] in ("0", 0) and x[1][0] == "variant" and x[1][2] == "Some" and x[1][1][0] == "call" and x[1][1][2] == "core::iter::Iterator::max" and len(x[1][1][3]) == 1:
@@ -590,6 +595,17 @@ class Verdict:
             # number of outside references any member has; zero for all of them iff it is zero
             x = x[1][1]
             is_sum = True
+        if fname is not None and is_fold and is_const(y) and y[1] in ("0", "1"):
+            # a field that counts the members (`members: c.members + 1`) tested for zero: the trace result is empty
+            src0 = iter_source(x[3][0])
+            cl0 = self.closures.run(x[3][2], params={2: ("param", 2), 3: ("param", 3)}) if src0 is not None and src0[0] == "map" else None
+            if cl0 is not None and len(cl0["returns"]) == 1 and cl0["returns"][0][0] == "agg":
+                rf0 = dict(cl0["returns"][0][5]).get(fname)
+                if rf0 is not None and rf0[0] == "bin" and rf0[1] in ("Add", "AddUnchecked") and is_const(rf0[3], 1) and rf0[2][0] == "field" and rf0[2][1] == ("param", 2) and rf0[2][2] == fname:
+                    from interp import classes_for
+                    if classes_for(op, y[1], truth) == frozenset("Z"):
+                        return add(st, ("verdict_checked", src0[1]))
+                    return None
         if not ((is_fold or is_sum) and is_const(y, 0)):
             return None
         src = iter_source(x[3][0])
@@ -610,13 +626,29 @@ class Verdict:
                 cl = dict(cl, returns=[("bin", "Add", acc, r) for r in cl["returns"]])
         if cl is None:
             return None
-        reads_strong = any(mentions(r, lambda e: counter_read(e) is not None and counter_read(e)[2] == "strong") for r in cl["returns"])
+        sel = cl["returns"]
+        if fname is not None and len(sel) == 1 and sel[0][0] == "agg":
+            sel = [e for n_, e in sel[0][5] if n_ == fname]      # (a count of the members is not the orphan test)
+        reads_strong = any(mentions(r, lambda e: counter_read(e) is not None and counter_read(e)[2] == "strong") for r in sel)
         if not reads_strong:
             return None
         self.verdict_sites.add(b)
         eng.obl("GATE-6", "verdict", b)
         good = False
-        if len(cl["returns"]) == 1 and not cl["effects"] and (is_sum or is_const(x[3][1], 0)):
+        init_ok = is_sum or is_const(x[3][1], 0)
+        if fname is not None and len(cl["returns"]) == 1 and cl["returns"][0][0] == "agg":
+            flds = dict(cl["returns"][0][5])
+            rf = flds.get(fname)
+            accf = [e for e in ([rf[2], rf[3]] if rf is not None and rf[0] == "bin" else []) if e[0] == "field" and e[1] == acc and e[2] == fname]
+            if rf is None or not accf:
+                cl = dict(cl, returns=[("unk", "field")])
+            else:
+                cl = dict(cl, returns=[("bin", rf[1], acc, rf[3] if rf[2] == accf[0] else rf[2])])
+            i0 = x[3][1]
+            def zero(e):      # 0, or `usize::default()`
+                return is_const(e, 0) or (e[0] == "call" and e[2].endswith("::default") and not e[3])
+            init_ok = (i0[0] == "agg" and zero(dict(i0[5]).get(fname, ("unk", "")))) or zero(i0)
+        if len(cl["returns"]) == 1 and not cl["effects"] and init_ok:
             r = cl["returns"][0]
             if r[0] == "field" and r[1][0] == "bin" and r[2] in ("0", 0):
                 r = r[1]
@@ -627,6 +659,13 @@ class Verdict:
                     kb = mk_field(mk_deref(mk_field(elem, "0", "")), "ptr", LINK)
                     val = mk_field(elem, "1", "")
                     good = g is not None and g[2] == "strong" and g[1] == kb and term[3][1] in (val, mk_deref(val))
+                # ... or the number of members with an outside reference: `+ usize::from(strong > owned)`
+                t2 = term
+                while (t2[0] == "call" and t2[2] in ("core::convert::From::from", "core::convert::Into::into") and len(t2[3]) == 1) or t2[0] == "cast":
+                    t2 = t2[3][0] if t2[0] == "call" else t2[2]
+                sv = strong_vs_value(t2, elem)
+                if sv is not None and sv[0] == "ok" and sv[1] == "Gt":
+                    good = True
         if not good:
             eng.violate("GATE-6", "verdict-predicate-shape", "the orphan test (%s) folds the members' counts into one number, but not as the sum of `strong.saturating_sub(traced count)` from 0: which groups it judges orphaned differs from `no member has strong > its traced count`" % cl["where"], b, st)
             return add(st, ("verdict_checked", M))
